@@ -255,7 +255,29 @@ func (r *Rng) genEnc(c *Ctx) encCase {
 		e.opts = append(e.opts, o)
 		c.Stat("opt:" + kind)
 	}
-	c.Stat(fmt.Sprintf("enc:nopts=%d", n))
+	if r.Chance(12) {
+		// a DECOY: the byte-for-byte wire form (code, length, data) of one of the message's ECS options also occurs
+		// EARLIER in the message - as the data of an opaque option in front of it, or inside a TXT record before the OPT
+		// record. The option must be neutralised where it IS, and nothing else may change.
+		for i, o := range e.opts {
+			if o.Code != 8 || len(o.Data) > 200 {
+				continue
+			}
+			wire := append([]byte{0, 8, byte(len(o.Data) >> 8), byte(len(o.Data))}, o.Data...)
+			if r.Bool() {
+				decoy := query.VerifOpt{Code: uint16(65001 + r.Intn(500)), Data: wire}
+				e.opts = append(e.opts[:i], append([]query.VerifOpt{decoy}, e.opts[i:]...)...)
+				c.Stat("enc:decoy-option")
+			} else {
+				ls := r.ordName()
+				e.pre = append(e.pre, query.VerifRR{Name: dottedName(ls), Type: 16, Class: 1, TTL: 60, RData: append([]byte{byte(len(wire))}, wire...)})
+				e.preLabels = append(e.preLabels, ls)
+				c.Stat("enc:decoy-txt-record")
+			}
+			break
+		}
+	}
+	c.Stat(fmt.Sprintf("enc:nopts=%d", len(e.opts)))
 	return e
 }
 
